@@ -240,8 +240,9 @@ namespace
         cmp(l->rest_v, b.rest_v, 0, "TRANSFER_REST", "restriction");
         cmp(l->rest_p, b.rest_p, 1, "TRANSFER_REST", "restriction");
         // a truncation matrix exists only for the parts it was requested for; the other part of the result is unspecified
-        if(rc.trunc_v) cmp(l->trunc_v, b.trunc_v, 0, "TRANSFER_TRUNC", "truncation");
-        if(rc.trunc_p) cmp(l->trunc_p, b.trunc_p, 1, "TRANSFER_TRUNC", "truncation");
+        // and only without `shrink`, which drops small entries of the local matrices partition-dependently (see c13_kit.hpp)
+        if(rc.trunc_v && rc.shrink == 0) cmp(l->trunc_v, b.trunc_v, 0, "TRANSFER_TRUNC", "truncation");
+        if(rc.trunc_p && rc.shrink == 0) cmp(l->trunc_p, b.trunc_p, 1, "TRANSFER_TRUNC", "truncation");
       }
     }
   }
